@@ -79,7 +79,7 @@ def random_geometry_recipe(rng, kind):
         elif u < 0.012:
             # between 32768 and 65535 vertices: indices that fit unsigned but not signed 16-bit integers
             r["mesh"]["base"], r["shape"] = "grid190", "large_index"
-        r["colors"] = rng.choice([None, None, "vertex", "face", "texture"])
+        r["colors"] = rng.choice([None, None, "vertex", "face", "texture", "vertex_flat"])
         r["attributes"] = rng.random() < 0.3
         # a name is free text: writers put it in headers, where it may look like a keyword of the format
         r["name"] = rng.choice([None, None, None, "part", "my vertex model", "endsolid x", "normal one", "end_header", "facet loop", "o g v f"])
@@ -131,7 +131,10 @@ def build_geometry(r, fmt=None):
         elif shape == "negative":
             V = -np.abs(V) - 1.0
         m = trimesh.Trimesh(vertices=V, faces=F, process=False)
-        if r.get("colors") == "vertex" and len(V):
+        if r.get("colors") == "vertex_flat" and len(V):
+            # painted one colour all over
+            m.visual.vertex_colors = np.tile(np.array([rs.randint(0, 256), rs.randint(0, 256), rs.randint(0, 256), 255], dtype=np.uint8), (len(V), 1))
+        elif r.get("colors") == "vertex" and len(V):
             m.visual.vertex_colors = np.column_stack([rs.randint(0, 256, (len(V), 3)), np.full(len(V), 255)]).astype(np.uint8)
         elif r.get("colors") == "face" and len(F):
             m.visual.face_colors = np.column_stack([rs.randint(0, 256, (len(F), 3)), np.full(len(F), 255)]).astype(np.uint8)
